@@ -1,11 +1,12 @@
 (* Model/Fragment.v — a fragment of well-formed Delphi as token sequences (as the lexer produces them:
    no comments, no directives, one pass), with the logical lines the parser is expected to produce.
      stmt  ::= Identifier | Identifier `:=` Identifier | `begin` stmts `end` | `repeat` stmts `until` Identifier
-             | `try` stmts `finally` stmts `end` | `try` stmts `except` stmts `end`
+             | `try` stmts `finally` stmts `end` | `try` stmts `except` stmts `end` | `try` stmts `except` handlers `end`
              | `if` Identifier `then` stmt | `if` Identifier `then` stmt `else` stmt | `while` Identifier `do` stmt
              | `case` Identifier `of` arms `end` | `case` Identifier `of` arms `else` stmts `end`
      stmts ::= ε | stmt `;` stmts
      arms  ::= ε | Identifier `:` stmt `;` arms
+     handlers ::= ε | `on` Identifier `:` Identifier `do` stmt `;` handlers      (`on` is lexed as IdentifierOrKeyword)
      prog  ::= `begin` stmts `end` `.` Eof
    (`wf`: the then-branch of an if-then-else must not end in an if without else — otherwise the tokens are
    those of a different program.)
@@ -22,6 +23,7 @@ Inductive stmt : Set :=
   | TRepeat (b : stmts)                    (* repeat b until Identifier *)
   | TTry (b c : stmts)                     (* try b finally c end *)
   | TTryExcept (b c : stmts)               (* try b except c end *)
+  | TTryOn (b : stmts) (h : handlers)      (* try b except h end *)
   | TIf (c : stmt)                         (* if Identifier then c *)
   | TIfElse (c1 c2 : stmt)                 (* if Identifier then c1 else c2 *)
   | TWhile (c : stmt)                      (* while Identifier do c *)
@@ -32,7 +34,10 @@ with stmts : Set :=
   | SCons (c : stmt) (rest : stmts)        (* c ; rest *)
 with arms : Set :=
   | ANil
-  | ACons (c : stmt) (rest : arms).        (* Identifier : c ; rest *)
+  | ACons (c : stmt) (rest : arms)         (* Identifier : c ; rest *)
+with handlers : Set :=
+  | HNil
+  | HCons (c : stmt) (rest : handlers).    (* on Identifier : Identifier do c ; rest *)
 
 Definition tI := RTT_Identifier.
 Definition tSemi := RTT_Op OK_Semicolon.
@@ -53,6 +58,10 @@ Definition tDo := RTT_Keyword KK_Do.
 Definition tCase := RTT_Keyword KK_Case.
 Definition tOf := RTT_Keyword KK_Of.
 Definition tColon := RTT_Op OK_Colon.
+Definition tOn := RTT_IdentifierOrKeyword KK_On.
+(* the final type of a token: the parser re-types contextual keywords in keyword position *)
+Definition retype (t : RawTokenType) : RawTokenType :=
+  match t with RTT_IdentifierOrKeyword KK_On => RTT_Keyword KK_On | _ => t end.
 
 Fixpoint render_stmt (c : stmt) : list RawTokenType :=
   match c with
@@ -62,6 +71,7 @@ Fixpoint render_stmt (c : stmt) : list RawTokenType :=
   | TRepeat b => tRepeat :: render b ++ [tUntil; tI]
   | TTry b c => tTry :: render b ++ tFinally :: render c ++ [tEnd]
   | TTryExcept b c => tTry :: render b ++ tExcept :: render c ++ [tEnd]
+  | TTryOn b h => tTry :: render b ++ tExcept :: render_handlers h ++ [tEnd]
   | TIf c => tIf :: tI :: tThen :: render_stmt c
   | TIfElse c1 c2 => tIf :: tI :: tThen :: render_stmt c1 ++ tElse :: render_stmt c2
   | TWhile c => tWhile :: tI :: tDo :: render_stmt c
@@ -77,6 +87,11 @@ with render_arms (a : arms) : list RawTokenType :=
   match a with
   | ANil => []
   | ACons c r => tI :: tColon :: render_stmt c ++ tSemi :: render_arms r
+  end
+with render_handlers (h : handlers) : list RawTokenType :=
+  match h with
+  | HNil => []
+  | HCons c r => tOn :: tI :: tColon :: tI :: tDo :: render_stmt c ++ tSemi :: render_handlers r
   end.
 Definition render_prog (ss : stmts) : list RawTokenType := tBegin :: render ss ++ [tEnd; tDot; RTT_Eof].
 
@@ -93,6 +108,7 @@ Fixpoint wf_stmt (c : stmt) : bool :=
   | TSimple | TAssign => true
   | TBlock b | TRepeat b => wf b
   | TTry b c | TTryExcept b c => wf b && wf c
+  | TTryOn b h => wf b && wf_handlers h
   | TIf c | TWhile c => wf_stmt c
   | TIfElse c1 c2 => closed c1 && wf_stmt c1 && wf_stmt c2
   | TCase a => wf_arms a
@@ -101,7 +117,9 @@ Fixpoint wf_stmt (c : stmt) : bool :=
 with wf (ss : stmts) : bool :=
   match ss with SNil => true | SCons c r => wf_stmt c && wf r end
 with wf_arms (a : arms) : bool :=
-  match a with ANil => true | ACons c r => wf_stmt c && wf_arms r end.
+  match a with ANil => true | ACons c r => wf_stmt c && wf_arms r end
+with wf_handlers (h : handlers) : bool :=
+  match h with HNil => true | HCons c r => wf_stmt c && wf_handlers r end.
 
 (* the level of a line at nesting depth d (the parser clamps to u16) *)
 Definition lvl (d : Z) : N := clamp_u16 d.
@@ -132,6 +150,13 @@ Fixpoint sexpected (par : option (nat * nat)) (d : Z) (k li : nat) (sm : list na
       let lc := pexpected par (d + 1) (m + 1) (li + 1 + length lb + 1) c in
       let e := m + 1 + length (render c) in
       mkLine LLT_Unknown (lvl d) par [k] :: lb ++ mkLine LLT_Unknown (lvl d) par [m] :: lc
+      ++ [mkLine LLT_Unknown (lvl d) par (e :: sm)]
+  | TTryOn b h =>
+      let lb := pexpected par (d + 1) (k + 1) (li + 1) b in
+      let m := k + 1 + length (render b) in
+      let lh := hexpected par (d + 1) (m + 1) (li + 1 + length lb + 1) h in
+      let e := m + 1 + length (render_handlers h) in
+      mkLine LLT_Unknown (lvl d) par [k] :: lb ++ mkLine LLT_Unknown (lvl d) par [m] :: lh
       ++ [mkLine LLT_Unknown (lvl d) par (e :: sm)]
   | TIf c | TWhile c =>
       mkLine LLT_Unknown (lvl d) par [k; k + 1; k + 2] :: sexpected (Some (li, k + 2)) 1 (k + 3) (li + 1) sm c ++ [stray]
@@ -175,6 +200,16 @@ with arms_lines (par : option (nat * nat)) (d : Z) (k li : nat) (a : arms) (pend
       mkLine LLT_CaseArm (lvl (d + 1)) par [k; k + 1] :: pend (li + 1)
       ++ arms_lines par d (e + 1) (li + 1 + length (pend (li + 1))) a'
            (fun i => sexpected (Some (li, k + 1)) 1 (k + 2) i [e] c ++ [stray]) tail
+  end
+(* the exception handlers of an except block: a header line `on E : T do`, its body as child lines *)
+with hexpected (par : option (nat * nat)) (d : Z) (k li : nat) (h : handlers) : list lline :=
+  match h with
+  | HNil => []
+  | HCons c r =>
+      let e := k + 5 + length (render_stmt c) in                        (* the `;` *)
+      let sl := mkLine LLT_Unknown (lvl d) par [k; k + 1; k + 2; k + 3; k + 4]
+                :: sexpected (Some (li, k + 4)) 1 (k + 5) (li + 1) [e] c ++ [stray] in
+      sl ++ hexpected par d (e + 1) (li + length sl) r
   end.
 Definition pexpected_prog (ss : stmts) : list lline :=
   let lb := pexpected None 1 1 1 ss in
